@@ -334,7 +334,15 @@ func (d *Downstream) flushAck() error {
 	d.dataIDAckBuffer = make(map[uint32]*message.DataID)
 	d.resultAckBuffer = make([]*message.DownstreamChunkResult, 0)
 
-	return d.wireConn.SendDownstreamDataPointsAck(d.ctx, ack)
+	if err := d.wireConn.SendDownstreamDataPointsAck(d.ctx, ack); err != nil {
+		// nothing was delivered (typically: the connection is gone); keep the results and the
+		// alias announcements for the next flush, which happens after the stream has resumed
+		d.upstreamInfoAckBuffer = ack.UpstreamAliases
+		d.dataIDAckBuffer = ack.DataIDAliases
+		d.resultAckBuffer = ack.Results
+		return err
+	}
+	return nil
 }
 
 func (d *Downstream) ackCompleteOrDone(ctx context.Context) <-chan *message.DownstreamChunkAckComplete {
